@@ -158,6 +158,14 @@ fn explore_program(prop: &str, idx: usize, e: &Entry, first: Option<usize>, alph
         }
         let obs = (e.run)(&src);
         judge(prop, idx, &e.prog, &items, &src, &exp, &obs, t);
+        // the same items with every value forwarded in an invisible group (what a
+        // `macro_rules!` `$e:expr` hands to the macro): same value, same mistakes, same places
+        if (seq.len() < maxlen || maxlen <= 2) && src.contains(" = ") {
+            let gsrc = format!("{src}{}", crate::run::GROUPED);
+            let gobs = (e.run)(&gsrc);
+            t.hit("grouped_values_inputs");
+            judge(prop, idx, &e.prog, &items, &gsrc, &exp, &gobs, t);
+        }
         t.states += 1;
         if !seq.is_empty() {
             t.transitions += 1;
@@ -294,6 +302,13 @@ fn explore_enum(prop: &str, idx: usize, e: &Entry, maxlen: usize, t: &mut Tally)
         let exp = ip.conv_enum(e.prog.root, &p);
         let obs = (e.run)(&src);
         judge(prop, idx, &e.prog, &items_for_case, &src, &exp, &obs, t);
+        if src.contains(" = ") {
+            // values forwarded in invisible groups: same outcome
+            let gsrc = format!("{src}{}", crate::run::GROUPED);
+            let gobs = (e.run)(&gsrc);
+            t.hit("grouped_values_inputs");
+            judge(prop, idx, &e.prog, &items_for_case, &gsrc, &exp, &gobs, t);
+        }
         t.states += 1;
         t.transitions += 1;
         match &exp.value {
